@@ -94,6 +94,39 @@ def run(pid, tier):
                       failing_input={'harness': nf['harness'], 'bytes': nf['input'], 'failed_on_real_code': rp['failed']},
                       replay_transcript=rp['stdout'])
 
+    # ---- C03 only: the second library mechanism the property names -- "set-valued lattice indices make re-insertion of a row
+    # number idempotent" -- is the LatticeIndexType contract of the index unit
+    lat_idx_cov = None
+    if c03:
+        from . import unit_index
+        try:
+            iv = unit_index.run_verus_part()
+            if iv['inconclusive']:
+                out.inconclusive.append('verus (index unit, LatticeIndexType): ' + iv['inconclusive'])
+            crate_i = kani.instantiate('idxcheck')
+            ibin, _ = kani.build_native(crate_i, 'idxcheck')
+            plan = [p for p in unit_index.native_plan(tier) if p[0].startswith('lattice_')]
+            nres = {p[0]: kani.native_exhaust(ibin, p[0], p[1]) for p in plan}
+            for f in iv['failures']:
+                if 'LatticeIndexType' not in f['container']:
+                    continue
+                cexs = [(h, r['failures'][0]) for h, r in nres.items() if r['failures']]
+                if cexs:
+                    h, fi = cexs[0]
+                    rp = kani.native_replay(ibin, h, fi['input'])
+                    out.violation(f['obligation'], 'verus (failing input from the native contract enumeration, harness %s)' % h, f['verifier_output'],
+                                  failing_input={'crate': 'idxcheck', 'harness': h, 'bytes': fi['input'], 'failed_on_real_code': rp['failed']},
+                                  replay_transcript=rp['stdout'])
+                elif 'invariant' in f['kind'] or 'arithmetic' in f['kind']:
+                    out.inconclusive.append('verus: %s of %s without a failing input: proof lost' % (f['kind'], f['obligation']))
+                else:
+                    out.violation(f['obligation'], 'verus', f['verifier_output'])
+            lat_fns = [x for x in iv['functions'] if x[0].split('::')[-1] in ('index_insert', 'move_index_contents', 'index_get', 'len_estimate', 'is_empty')]
+            lat_idx_cov = {'unit': iv['path'], 'note': 'LatticeIndexType::{index_insert, move_index_contents, index_get}: set-valued per key, re-insertion idempotent',
+                           'native_cross_check': {h: {'evaluated': r['evaluated'], 'failures': len(r['failures'])} for h, r in nres.items()}}
+        except (common.Inconclusive, unit_lattice.LostAnchor) as ex:
+            out.inconclusive.append('index unit (LatticeIndexType): %s' % ex)
+
     # ---- evidence
     log = v['log']
     vfuncs = [f for f in v['functions'] + sv['functions'] if f[0] and '__vacuity_canary' not in f[0]]
@@ -147,6 +180,8 @@ def run(pid, tier):
         'Rc/Arc/Box/Reverse, ConstPropagation::{join_mut,meet_mut}, Product<[T;N]>: decided by Kani for the listed instantiations only (N <= 4)',
         'termination of the lattice operations is checked by Verus only for the functions it verifies',
     ]
+    if c03 and lat_idx_cov:
+        out.coverage['lattice_index_idempotent_reinsertion'] = lat_idx_cov
     if c03:
         out.assumptions.append('C03 PARTIAL: the generated lattice head update (lookup in new/delta/total, re-queueing as delta, one row per key) is token generation in ascent_macro and is NOT covered')
     return out.finish()
